@@ -3,7 +3,7 @@
    concatenation/equality, set algebra, element-wise application of arithmetic operators between a set and a scalar
    (either side), min/max/count.  Everything else is undefined (Rej).  Definitions only. *)
 From Coq Require Import ZArith QArith Qround List Bool.
-From PV Require Import Expr.Values Expr.Syntax Expr.Literals.
+From PV Require Import Expr.Values Expr.Syntax Expr.Literals Expr.Nfc.
 Import ListNotations.
 
 (* result of evaluating an expression:
@@ -39,6 +39,9 @@ Definition mkset (l : list value) : res :=
 
 Definition set_of (l : list res) : res :=
   match collect l with LOk vs => mkset vs | LRej => Rej | LUnspec => Unspec end.
+
+(* equality of strings is equality of their NFC-normalised texts (elements of sets are compared raw, see value_eqb) *)
+Definition str_eqb (s t : list Z) : bool := zlist_eqb (nfc s) (nfc t).
 
 Definition qnorm (q : Q) : value := VRat (Qred q).
 Definition q_is_zero (q : Q) : bool := Qeq_bool q 0.
@@ -89,8 +92,8 @@ Definition sem_scalar (o : binop) (a b : value) : res :=
       end
   | VStr s, VStr t =>
       match o with
-      | BEq => Ok (VBool (zlist_eqb s t))
-      | BNe => Ok (VBool (negb (zlist_eqb s t)))
+      | BEq => Ok (VBool (str_eqb s t))
+      | BNe => Ok (VBool (negb (str_eqb s t)))
       | BAdd => Ok (VStr (s ++ t))
       | _ => Rej
       end
